@@ -105,7 +105,7 @@ def forced_schedule(k, j=None):
 
 
 # ------------------------------------------------------------------ order independence over literals that Python treats as equal
-ORDER_FILTERS = ['v == true', 'v == 1', 'v == 1.0', 'v != true', 'v != 1', 'v == false', 'v == 0', 'v != 0', 'v != false', 'v >= 1', 'v >= true',
+ORDER_FILTERS = ['(' * 20 + 'v', '(' * 10 + 'w', '(v and', '(((w == 1)))', '(v == 1) or (w)', '((v))', '(v) and (w', '(' * 40 + 'v', '(((v != 1)))', 'v == true', 'v == 1', 'v == 1.0', 'v != true', 'v != 1', 'v == false', 'v == 0', 'v != 0', 'v != false', 'v >= 1', 'v >= true',
                  'v < 1', 'v < true', 'v == "a"', 'v == `a`', 'v == @a', 'v != "a"', 'v != `a`', 'v == 1m', 'v != 1m', 'v == "1"', 'v == 2020-01-01',
                  'v == 1 and w == true', 'v == true and w == 1', 'w == 1 or v == true', 'not v', 'v', 'v == 0.0', 'v == -0.0', 'v == 1e0']
 
